@@ -34,9 +34,17 @@ def conc_suite(profile, n_quick, n_thorough, sched_quick, sched_thorough, focus,
         directed = {
             "wait": [[["wait", "proc"], ["dqnb", "enq", "dqne"]], [["wait", "proc"], ["enq"]], [["wait", "proc"], ["wait", "proc"], ["enq", "enq"]],
                      [["waitfor", "proc"], ["dqnb", "dqnb", "enq", "dqne", "dqne"]], [["wait", "proc"], ["dqnb", "enq", "dqne"], ["one"]],
-                     [["wait", "proc"], ["enq"], ["ifE"]], [["wait", "proc"], ["dqnb", "dqne"], ["ifE"], ["enq"]]],
+                     [["wait", "proc"], ["enq"], ["ifE"]], [["wait", "proc"], ["dqnb", "dqne"], ["ifE"], ["enq"]],
+                     # processUntil stops at event 0 and puts it back: the same window as processIf's put-back
+                     [["wait", "proc"], ["enq"], ["untE"]], [["wait", "proc"], ["dqnb", "dqne"], ["untE"], ["enq"]]],
             "conserve": [[["enq", "enq"], ["proc"], ["one"]], [["enq", "enq", "enq"], ["ifE"], ["take"]], [["enq", "enq"], ["clear"], ["proc"]],
-                         [["enq", "enq"], ["ifO"], ["ifE"]]],
+                         [["enq", "enq"], ["ifO"], ["ifE"]],
+                         # processUntil: a producer enqueues while the only consumer runs processUntil (an enqueue lands
+                         # between the swap-out and the put-back), then the consumer drains with process(): the events
+                         # put back must come out before the ones enqueued meanwhile (single-consumer order oracle)
+                         [["enq", "enq", "enq", "enq"], ["untO", "proc"]], [["enq", "enq", "enq"], ["untE", "proc"]],
+                         [["enq", "enq", "enq", "enq"], ["untO", "untE", "proc"]], [["enq", "enq"], ["enq", "enq"], ["untO", "proc", "proc"]],
+                         [["enq", "enq", "enq"], ["untO"], ["one"]]],
             "empty": [[["enq"], ["proc"], ["empty"]], [["enq", "enq"], ["one", "one"], ["empty", "empty"]], [["enq"], ["take"], ["empty"]],
                       [["enq"], ["clear"], ["empty"]]],
         }[profile]
@@ -92,7 +100,7 @@ def conc_suite(profile, n_quick, n_thorough, sched_quick, sched_thorough, focus,
                 why = None
                 if dm["mismatch"]:
                     why = dm["mismatch"][0]
-                elif focus == "C11" and dm["c11bad"] and not any(c in ("ifE", "ifO") for p in progs for c in p):
+                elif focus == "C11" and dm["c11bad"] and not any(c in suite_conc.PUTBACK for p in progs for c in p):
                     why = dm["c11bad"][0]
                 else:
                     why = suite_conc.compare(di, dm)
@@ -119,7 +127,7 @@ register(
     fragments=["QueueFrag"],
     suites=[conc_suite("wait", 60, 600, 12, 60, "C07",
                        rule="random programs of 2-4 threads: waiters (wait / waitFor followed by process), enqueuers with and without nested DisableQueueNotify scopes, "
-                            "processors; each run under a seeded random schedule of the baton scheduler (every micro-step of Conc/Queue.lean is a scheduling point, "
+                            "processors (process / processOne / takeEvent / processIf / processUntil), plus a directed family of the smallest programs around each notification window; each run under a seeded random schedule of the baton scheduler (every micro-step of Conc/Queue.lean is a scheduling point, "
                             "spurious wake-ups and time-outs are scheduler choices with probability 0 - 8%); distinct = distinct global step order; "
                             "non-trivial = at least 3 thread switches and 8 steps")],
 )
@@ -129,8 +137,10 @@ register(
     "C06",
     lean_modules=["EventppVerif.Properties.C06"],
     suites=[conc_suite("conserve", 80, 800, 10, 60, "C06",
-                       rule="random programs of 2-4 threads mixing enqueue with process / processOne / processIf (even / odd ids declined) / takeEvent / peekEvent / clearEvents / emptyQueue, "
-                            "each run under seeded random schedules of the baton scheduler, plus a directed family of the smallest producer/consumer programs with many schedules; "
+                       rule="random programs of 2-4 threads mixing enqueue with process / processOne / processIf (even / odd ids declined) / processUntil (stop at the first even / odd id) / "
+                            "takeEvent / peekEvent / clearEvents / emptyQueue, "
+                            "each run under seeded random schedules of the baton scheduler, plus a directed family of the smallest producer/consumer programs with many schedules "
+                            "(among them: a producer enqueueing while the only consumer runs processUntil and then drains with process, for the put-back-in-front order); "
                             "distinct = distinct global step order; non-trivial = at least 3 thread switches and 8 steps")],
 )
 
@@ -141,7 +151,7 @@ register(
     lean_modules=["EventppVerif.Properties.C11", "EventppVerif.Properties.C11s"],
     fragments=["QueueFrag"],
     suites=[conc_suite("empty", 80, 800, 10, 60, "C11",
-                       rule="random programs of 2-4 threads with emptyQueue observers next to enqueuers and threads running process / processOne / takeEvent / clearEvents (no processIf: the property excludes it), "
+                       rule="random programs of 2-4 threads with emptyQueue observers next to enqueuers and threads running process / processOne / takeEvent / clearEvents (no processIf / processUntil: the property excludes them), "
                             "under seeded random schedules; the driver evaluates along the implementation's own step order whether an emptyQueue() that returns true finds every event enqueued before the call consumed; "
                             "plus the single-threaded histories of C05 in which listeners call emptyQueue (seq_q); distinct = distinct global step order / canonical output"),
             reg_q.q_suite("queue", 150, 4000, [reg_q.V("single", 0, 0, 0, 0)], [reg_q.V("single", 0, 0, 0, 0), reg_q.V("multi", 1, 1, 1, 0)],
@@ -227,7 +237,8 @@ def concl_suite(ctx, search=False):
 
 register(
     "C03",
-    lean_modules=["EventppVerif.Properties.C03"],
+    lean_modules=["EventppVerif.Properties.C03", "EventppVerif.Properties.C02bridge"],
+    fragments=["ClFrag"],
     suites=[concl_suite],
     level_text="Lean theorems on the concurrent micro-step model of CallbackList over the pointer model (every schedule, any number of threads): well-formedness of the list after every micro-step, "
                "linearizability by fixed linearization points (each adding / removing / querying call takes effect in one atomic critical section whose result is the Spec result on the abstract list), "
